@@ -1,1 +1,228 @@
-/-! Property theorems for C06 (see /verif/DESIGN.md). Only property theorems and non-vacuity examples live here. -/
+import Proofs.C06Refine
+import Proofs.C06Conseq
+import Proofs.C06Split
+import Proofs.C06Num
+import Proofs.C06SplitMulti
+/-!
+# C06 — `$0`, the fields and NF stay mutually consistent under every update
+
+Property theorems over the record model `GoawkModel.C06` (`Rec` = the lazily split record of `interp.go`/`io.go`,
+`Spec` = the eager specification in which the fields are always split and NF is their number; `abs` forces the lazy
+split with the FS saved at `setLine`). The regex engine is the parameter `M` (any function from compiled regex and line to
+a match list). No bound on the length of a history, on record texts, separators or indexes.
+-/
+namespace GoawkModel.C06.Props
+open GoawkModel GoawkModel.C06
+
+variable {ρ : Type} (M : ρ → Bytes → List (Nat × Nat))
+
+/-! ## refinement -/
+
+/-- One operation on the lazy record matches the same operation on the eager specification through `abs`, prints the same
+observation, and keeps "stored NF = number of fields". `op.Canon` only excludes `NF = <string>` where the string is not the
+decimal count it denotes (for those see `refines_num` and `nf_is_count_fails`). -/
+theorem refines (r : Rec ρ) (op : Op ρ) (hinv : Inv r) (hc : op.Canon) :
+    abs M (step M r op).1 = (specStep M (abs M r) op).1 ∧ (step M r op).2 = (specStep M (abs M r) op).2 ∧
+      Inv (step M r op).1 :=
+  refines_step M r op hinv hc
+
+/-- Every history from a fresh interpreter: the lazy record prints exactly what the eager specification prints. -/
+theorem lift (rsEmpty : Bool) (ops : List (Op ρ)) (hc : ∀ op ∈ ops, op.Canon) :
+    run M (Rec.init rsEmpty) ops = specRun M (Spec.init rsEmpty) ops := by
+  rw [lift_run M _ ops (init_inv rsEmpty) hc, abs_init]
+
+/-- The same with NF compared as a number: histories may assign strings such as "3x" or " 2 " to NF (integral value). -/
+theorem refines_num (r : Rec ρ) (op : Op ρ) (hinv : InvW r) (hc : op.Integral) :
+    abs M (step M r op).1 = (specStep M (abs M r) op).1 ∧ Out.numEq (step M r op).2 (specStep M (abs M r) op).2 ∧
+      InvW (step M r op).1 :=
+  refines_step_num M r op hinv hc
+
+theorem lift_num (rsEmpty : Bool) (ops : List (Op ρ)) (hc : ∀ op ∈ ops, op.Integral) :
+    outsNumEq (run M (Rec.init rsEmpty) ops) (specRun M (Spec.init rsEmpty) ops) := by
+  have := lift_run_num M (Rec.init rsEmpty) ops (init_invW rsEmpty) hc
+  rwa [abs_init] at this
+
+/-! ## NF is the number of fields — full statement, the part that holds, and the part that fails -/
+
+/-- the property clause at full strength: in every history NF reads (numerically) as the number of fields, and everything
+else reads as in the eager specification -/
+def NFAlwaysCount : Prop :=
+  ∀ (rsEmpty : Bool) (ops : List (Op Unit)),
+    outsNumEq (run (fun _ _ => []) (Rec.init rsEmpty) ops) (specRun (fun _ _ => []) (Spec.init rsEmpty) ops)
+
+/-- holds for every history whose string-typed NF assignments have an integral numeric value -/
+theorem nf_is_count_partial (rsEmpty : Bool) (ops : List (Op Unit)) (hc : ∀ op ∈ ops, op.Integral) :
+    outsNumEq (run (fun _ _ => []) (Rec.init rsEmpty) ops) (specRun (fun _ _ => []) (Spec.init rsEmpty) ops) :=
+  lift_num _ rsEmpty ops hc
+
+/-- finding F08s: `$0 = "a b c"; NF = "2.7"` leaves two fields and NF reading 2.7 -/
+theorem nf_is_count_fails : ¬ NFAlwaysCount := by
+  intro h
+  have := h false [.setLine [97, 32, 98, 32, 99] true, .setNF (.str [50, 46, 55] (.rat 27 10)), .getNF]
+  have e1 : run (fun (_ : Unit) _ => []) (Rec.init false)
+      [.setLine [97, 32, 98, 32, 99] true, .setNF (.str [50, 46, 55] (.rat 27 10)), .getNF]
+      = [.none, .none, .nf ⟨[50, 46, 55], .rat 27 10⟩] := by decide
+  have e2 : specRun (fun (_ : Unit) _ => []) (Spec.init false)
+      [.setLine [97, 32, 98, 32, 99] true, .setNF (.str [50, 46, 55] (.rat 27 10)), .getNF]
+      = [.none, .none, .nf (NFv.count 2)] := by decide
+  rw [e1, e2] at this
+  simp [outsNumEq, Out.numEq, NFv.count] at this
+
+/-- after any history (Canon), reading NF prints the number of fields of the abstract record -/
+theorem nf_is_count (rsEmpty : Bool) (ops : List (Op ρ)) (hc : ∀ op ∈ ops, op.Canon) :
+    (step M (exec M (Rec.init rsEmpty) ops) .getNF).2
+      = .nf (NFv.count (abs M (exec M (Rec.init rsEmpty) ops)).fields.length) :=
+  nf_count M _ (exec_inv M _ ops (init_inv rsEmpty) hc)
+
+/-! ## reads change nothing -/
+
+/-- reading `$0`, a field or NF leaves the abstract record as it was (whatever the index: 0, negative, huge, NaN) -/
+theorem reads_pure (r : Rec ρ) (op : Op ρ) (h : op.isRead = true) : abs M (step M r op).1 = abs M r :=
+  read_pure M r op h
+
+/-- and it is invisible to everything observed afterwards: the remaining history prints what it prints without the read -/
+theorem reads_invisible (r : Rec ρ) (op : Op ρ) (ops : List (Op ρ)) (h : op.isRead = true) (hinv : Inv r)
+    (hc : ∀ o ∈ ops, o.Canon) : run M r (op :: ops) = (step M r op).2 :: run M r ops :=
+  read_invisible M r op ops h hinv hc
+
+/-! ## assignments rebuild `$0` -/
+
+/-- `$i = v`, `1 ≤ i ≤ maxFieldIndex`: intervening new fields are empty, field `i` is `v`, `$0` is the join -/
+theorem setField_rebuild (r : Rec ρ) (hinv : Inv r) (i : Num) (v : Bytes) (h1 : 1 ≤ floatToInt i) (h2 : floatToInt i ≤ maxFieldIndex) :
+    let s := abs M r
+    let s' := abs M (step M r (.setField i v)).1
+    let k := (floatToInt i).toNat
+    s'.fields.map Prod.fst = ((s.fields.map Prod.fst) ++ List.replicate (k - s.fields.length) []).set (k - 1) v ∧
+    s'.line = joinFields s.env s'.fields ∧ s'.env = s.env := by
+  obtain ⟨e1, _, _⟩ := refines_step M r (.setField i v) hinv trivial
+  simp only []
+  rw [e1]
+  obtain ⟨a, b, c, _⟩ := spec_setField M (abs M r) i v h1 h2
+  exact ⟨a, b, c⟩
+
+/-- `NF = n`, `0 ≤ n ≤ maxFieldIndex` (number, or canonical string): truncate or extend with empty fields, `$0` is the
+join, NF then reads `n` -/
+theorem setNF_rebuild (r : Rec ρ) (hinv : Inv r) (a : NFArg) (hc : a.Canon) (h1 : 0 ≤ goInt a.val) (h2 : goInt a.val ≤ maxFieldIndex) :
+    let s := abs M r
+    let r' := (step M r (.setNF a)).1
+    let s' := abs M r'
+    let n := (goInt a.val).toNat
+    s'.fields.map Prod.fst = (s.fields.map Prod.fst).take n ++ List.replicate (n - s.fields.length) [] ∧
+    s'.line = joinFields s.env s'.fields ∧ (step M r' .getNF).2 = .nf (NFv.count n) := by
+  obtain ⟨e1, _, e3⟩ := refines_step M r (.setNF a) hinv hc
+  obtain ⟨p, q, _, w⟩ := spec_setNF M (abs M r) a h1 h2
+  simp only []
+  refine ⟨?_, ?_, ?_⟩
+  · rw [e1]; exact p
+  · rw [e1]; exact q
+  · rw [nf_count M _ e3, e1]
+    simpa [specStep] using w
+
+/-- the join is by the current OFS in default mode and CSV-encoded in CSV/TSV output mode -/
+theorem join_default (env : Env ρ) (fl : List Fld) (h : env.csv = none) :
+    joinFields env fl = intercalate env.ofs (fl.map Prod.fst) := joinFields_default env fl h
+theorem join_csv (env : Env ρ) (fl : List Fld) (sep : UInt8) (h : env.csv = some sep) :
+    joinFields env fl = csvJoin sep (fl.map Prod.fst) := joinFields_csv env fl sep h
+
+/-! ## `$0 = v` re-splits with the FS then in force; a change of FS does not re-split -/
+
+theorem setLine_resplits (r : Rec ρ) (v : Bytes) (t : Bool) :
+    (abs M (step M r (.setLine v t)).1).fields = splitFlds M r.env r.env.fs r.env.fsRe v ∧
+    (abs M (step M r (.setLine v t)).1).line = v :=
+  C06.setLine_resplits M r v t
+
+theorem fs_change_inert (r : Rec ρ) (fs : Bytes) (re : Option ρ) :
+    (abs M (step M r (.setFS fs re)).1).fields = (abs M r).fields ∧
+    (abs M (step M r (.setFS fs re)).1).line = (abs M r).line :=
+  C06.fs_change_inert M r fs re
+
+/-- the lazy split is really with the FS of the time `$0` was set: set `$0`, change FS any number of times, then look -/
+theorem lazy_split_uses_saved_fs (r : Rec ρ) (v : Bytes) (t : Bool) (fs : Bytes) (re : Option ρ) :
+    (abs M (step M (step M r (.setLine v t)).1 (.setFS fs re)).1).fields = splitFlds M r.env r.env.fs r.env.fsRe v := by
+  rw [(C06.fs_change_inert M _ fs re).1, (C06.setLine_resplits M r v t).1]
+
+/-! ## indexes out of range -/
+
+theorem beyond_nf_empty (r : Rec ρ) (hinv : Inv r) (i : Num) (h : ((abs M r).fields.length : Int) < floatToInt i) :
+    (step M r (.getField i)).2 = .val [] true := by
+  rw [(refines_step M r (.getField i) hinv trivial).2.1]
+  exact spec_beyond_nf M (abs M r) i h
+
+theorem negative_from_last (r : Rec ρ) (hinv : Inv r) (i : Num) (h1 : floatToInt i < 0)
+    (h2 : -((abs M r).fields.length : Int) ≤ floatToInt i) :
+    ∃ f, (abs M r).fields[(abs M r).fields.length - (floatToInt i).natAbs]? = some f ∧
+      (step M r (.getField i)).2 = .val f.1 f.2 := by
+  rw [(refines_step M r (.getField i) hinv trivial).2.1]
+  exact spec_negative M (abs M r) i h1 h2
+
+theorem huge_index_error (r : Rec ρ) (i : Num) (v : Bytes) (h : floatToInt i > maxFieldIndex) :
+    step M r (.setField i v) = (r, .err (.fieldTooLarge (floatToInt i))) :=
+  huge_index M r i v h
+
+/-- the index conversion clamps instead of wrapping: integers in range are themselves; +Inf and NaN do not become small -/
+theorem floatToInt_exact (n : Int) (h1 : minInt < n) (h2 : n < maxInt) : floatToInt (.rat n 1) = n :=
+  floatToInt_int n h1 h2
+
+theorem gen_maxFieldIndex : maxFieldIndex = 1000000 := by decide
+
+/-! ## split functions -/
+
+/-- a single (ASCII, non-space) character is a literal separator: joining the fields with it gives the record back -/
+theorem splitChar_join (c : UInt8) (s : Bytes) : intercalate [c] (splitSep [c] s) = s := C06.splitChar_join c s
+
+theorem splitChar_fields (c : UInt8) (s : Bytes) :
+    (splitSep [c] s).length = (s.filter (fun b => b == c)).length + 1 ∧ ∀ g ∈ splitSep [c] s, ∀ x ∈ g, (x == c) = false := by
+  rw [splitSep_single]
+  exact ⟨splitOnP_length _ s, splitOnP_no_sep _ s⟩
+
+theorem splitChar_used (c : UInt8) (hc : c < 0x80) (h32 : c ≠ 32) (re : Option ρ) (line : Bytes) (hl : line ≠ []) :
+    split M false [c] re line = splitSep [c] line := split_char M c hc h32 re line hl
+
+/-- any single character, ASCII or multi-byte (or a stray byte), is a literal separator -/
+theorem splitOneChar_join (fs : Bytes) (h1 : runeCount fs = 1) (h32 : fs ≠ [32]) (re : Option ρ) (line : Bytes) (hl : line ≠ []) :
+    intercalate fs (split M false fs re line) = line := by
+  have hne : fs ≠ [] := by intro e; subst e; simp [runeCount, runes, runesAux] at h1
+  rw [split_onechar M fs h1 h32 re line hl, splitSep_join fs hne]
+
+/-- `FS = " "` on ASCII text: maximal runs of non-blank bytes, none empty, leading/trailing blanks ignored -/
+theorem splitSpace_spec (re : Option ρ) (s : Bytes) (h : ∀ b ∈ s, b < 0x80) :
+    split M false [32] re s = (splitOnP (fun b => isSpaceCp b.toNat) s).filter (fun g => !g.isEmpty) := by
+  rw [split_space, fieldsSpace_ascii s h]
+
+theorem blanks_ascii : ∀ n, n < 128 → isSpaceCp n = ((9 ≤ n && n ≤ 13) || n == 32) := isSpaceCp_ascii
+
+/-- regex separator: the fields interleaved with the non-empty matches give the record back; empty matches produce nothing -/
+theorem splitRegex_spec (line : Bytes) (ms : List (Nat × Nat)) (h : MatchesWF line.length 0 ms) :
+    weave (splitRegex ms line) (matchTexts line ms) = line ∧
+    (splitRegex ms line).length = (matchTexts line ms).length + 1 := by
+  refine ⟨?_, splitRegexAux_length line ms 0⟩
+  have := splitRegexAux_weave line ms 0 h
+  simpa [splitRegex] using this
+
+theorem splitRegex_used (fs : Bytes) (r : ρ) (line : Bytes) (hfs : runeCount fs > 1) (hl : line ≠ []) :
+    split M false fs (some r) line = splitRegex (M r line) line := split_regex M fs r line hfs hl
+
+/-! ## non-vacuity -/
+
+/-- a history with a lazy split (FS changed before the first field access), an assignment beyond NF and a fractional NF
+assignment; the model prints what the real interpreter prints (`a,b c` is split at the blank, not at the comma) -/
+example :
+    run (fun (_ : Unit) _ => []) (Rec.init false)
+      [.setLine [97, 44, 98, 32, 99] true, .setFS [44] none, .getNF, .setField (.rat 4 1) [120], .getField (.rat 0 1),
+       .setNF (.num (.rat 27 10)), .getNF, .getField (.rat 0 1)]
+    = [.none, .none, .nf (NFv.count 2), .none, .val [97, 44, 98, 32, 99, 32, 32, 120] true,
+       .none, .nf (NFv.count 2), .val [97, 44, 98, 32, 99] true] := by
+  decide
+
+example : (Op.setNF (.str [51] (.rat 3 1)) : Op Unit).Canon := by
+  simp [Op.Canon, NFArg.Canon, goInt, natToDec, natToDecAux, minInt, maxInt]
+example : (Op.setNF (.str [51, 120] (.rat 3 1)) : Op Unit).Integral := by
+  simp [Op.Integral, NFArg.Integral, goInt, minInt, maxInt]
+example : MatchesWF 8 0 [(1, 3), (3, 3), (5, 6)] := by simp [MatchesWF]
+example : splitRegex [(1, 3), (3, 3), (5, 6)] [97, 120, 120, 98, 99, 120, 100, 101] = [[97], [98, 99], [100, 101]] := by decide
+example : split (fun (_ : Unit) _ => []) false [32] none [32, 97, 9, 32, 98, 32] = [[97], [98]] := by decide
+example : runeCount [0xC3, 0xA9] = 1 ∧ runeCount [0xFF] = 1 ∧ runeCount [0xC3, 0xA9, 0x78] = 2 := by decide
+example : floatToInt (.rat 1000001 1) > maxFieldIndex := by decide
+example : floatToInt (.inf false) > maxFieldIndex ∧ floatToInt .nan < 0 := by decide
+
+end GoawkModel.C06.Props
